@@ -119,7 +119,8 @@ func unmarshalValue(span errors.Span, self interface{}) (*Value, *Interrupt) {
 		}
 		return NewValueList(values), nil
 	case nil:
-		return NewNoneOption(), nil
+		// Without a type, JSON `null` is the null value (a cast to an option type turns it into `none`).
+		return NewValueNull(), nil
 	default:
 		return nil, NewRuntimeErr(fmt.Sprintf("Cannot parse unknown JSON value: `%v` to HMS value", self), JsonErrorKind, span)
 	}
